@@ -221,7 +221,7 @@ theorem C12_reader_point_no_z {K : Type} (zero : K) (adjusted : Bool) (k : Nat) 
     (`st` arbitrary: a plane point after a 3D point, a height point after a constrained one …), gama's reader accepts the
     children the writer produced and pushes the written point: same id, has/constrained flags of the section's rule,
     coordinates up to the number codec, absent coordinates 0, adjustment indexes `k+1 …` under `<adjusted>`, 0 elsewhere -/
-theorem C12_point_roundtrip {K : Type} [Scalar K] (C : Gama.Export.Codec K) (q : K → K) (P : C.Printer q)
+theorem C12_point_roundtrip {K : Type} [Scalar K] (C : Gama.Export.Codec K) (q : K → K) {qd : K → K} (P : C.Printer q qd)
     (zero : K) (st : PState K) (s : Sect) (f : Frame K) (p : LPoint K) (hid : Trimmed p.id)
     (ha : st.adjusted = (s == .adjusted)) :
     ∃ r, readPoint (numOf C) zero st (writePoint (numOf C) s f p) = .ok r ∧
@@ -231,7 +231,7 @@ theorem C12_point_roundtrip {K : Type} [Scalar K] (C : Gama.Export.Codec K) (q :
 
 /-- a whole section, any number of points in any mix and order: the reader's list is the list of written points
     (points the writer skips with `continue` are absent) and the counter ends at the number of adjusted coordinates -/
-theorem C12_section_roundtrip {K : Type} [Scalar K] (C : Gama.Export.Codec K) (q : K → K) (P : C.Printer q)
+theorem C12_section_roundtrip {K : Type} [Scalar K] (C : Gama.Export.Codec K) (q : K → K) {qd : K → K} (P : C.Printer q qd)
     (zero : K) (s : Sect) (f : Frame K) (pts : List (LPoint K)) (hid : ∀ p ∈ pts, Trimmed p.id)
     (st : PState K) (ha : st.adjusted = (s == .adjusted)) :
     ∃ r, readPoints (numOf C) zero st (writeSection (numOf C) s f pts) = .ok r ∧
@@ -241,7 +241,7 @@ theorem C12_section_roundtrip {K : Type} [Scalar K] (C : Gama.Export.Codec K) (q
 
 /-- `<orientation>` records: id, approximate and adjusted orientation up to the codec, `index = ++tmp_adj_index`
     continuing after the adjusted coordinates — any number of orientations -/
-theorem C12_orientation_roundtrip {K : Type} [Scalar K] (C : Gama.Export.Codec K) (q : K → K) (P : C.Printer q)
+theorem C12_orientation_roundtrip {K : Type} [Scalar K] (C : Gama.Export.Codec K) (q : K → K) {qd : K → K} (P : C.Printer q qd)
     (f : Frame K) (os : List (LOri K)) (hid : ∀ o ∈ os, Trimmed o.id) (st : OState K) :
     ∃ r, readOris (numOf C) st (os.map (writeOri (numOf C) f)) = .ok r ∧ r.k = st.k + os.length ∧
       r.out = st.out ++ expectOris q f st.k os :=
@@ -250,7 +250,7 @@ theorem C12_orientation_roundtrip {K : Type} [Scalar K] (C : Gama.Export.Codec K
 /-- an observation element of any of the 13 kinds, with or without `<std-residual>` and `<err-obs>/<err-adj>`: the reader
     reaches one of its three accepting states and the record is the written one (`from/to`, `left/right` for angles, `id`
     for coordinates read into `from`; numbers up to the codec; the two error estimates kept as the printed strings) -/
-theorem C12_observation_roundtrip {K : Type} [Scalar K] (C : Gama.Export.Codec K) (q : K → K) (P : C.Printer q)
+theorem C12_observation_roundtrip {K : Type} [Scalar K] (C : Gama.Export.Codec K) (q : K → K) {qd : K → K} (P : C.Printer q qd)
     (zero : K) (f : Frame K) (o : LObs K)
     (hfrom : Trimmed o.from_) (hto : Trimmed o.to) (hbs : Trimmed o.bs) (hfs : Trimmed o.fs) :
     readObs (numOf C) zero o.kind.tag (writeObs (numOf C) f o) = .ok (expectObs (numOf C) q zero f o) :=
